@@ -35,10 +35,21 @@ def render(spec):
         out.append("#[bits(%d)]" % spec["bits"])
     out.append("pub enum %s {" % spec["name"])
     for v in spec["variants"]:
+        attrs = []
         if v.get("display") is not None:
-            out.append("    #[display('%s')]" % v["display"])
+            attrs.append("    #[display('%s')]" % v["display"])
         if v.get("alts"):
-            out.append("    #[alt(%s)]" % ", ".join(fmt(a, v.get("fmt", "dec") if v.get("fmt") != "byte" else "dec") for a in v["alts"]))
+            af = v.get("fmt", "dec") if v.get("fmt") != "byte" else "dec"
+            groups = [v["alts"]]
+            if v.get("alt_split") and len(v["alts"]) > 1:
+                # the same alternatives spread over several #[alt] attributes
+                k = v["alt_split"] % (len(v["alts"]) - 1) + 1
+                groups = [v["alts"][:k], v["alts"][k:]]
+            for g in groups:
+                attrs.append("    #[alt(%s)]" % ", ".join(fmt(a, af) for a in g))
+        if v.get("attrs_reversed"):
+            attrs.reverse()
+        out += attrs
         out.append("    %s = %s," % (v["name"], fmt(v["discr"], v.get("fmt", "dec"))))
     out.append("}")
     eb = spec["bits"] if spec.get("bits") is not None else min_bits(max(v["discr"] for v in spec["variants"]))
@@ -83,6 +94,14 @@ def fixed_family():
     E("W21", [63, 62, 1, 0], alts={2: [2, 3, 4]}, fmts=["bin"])
     E("W22", [64, 1], displays={0: "Z", 1: "z"})             # 7 bits
     E("W23", list(range(0, 40)), bits=6, fmts=["dec"], displays={i: c for i, c in enumerate("ABCDEFGHIJKLMNOPQRSTUVWXYZabcdefghijklmn")})
+    # attribute-shape variants: alternatives spread over several #[alt] attributes, attributes in either order
+    E("W24", [0, 1, 2], bits=4, alts={0: [8, 9, 10], 1: [12, 13]}, fmts=["bin"])
+    fam[-1]["variants"][0]["alt_split"] = 1
+    fam[-1]["variants"][1]["alt_split"] = 0
+    E("W25", [3, 5, 6, 0], bits=4, alts={1: [9, 10, 11, 12], 3: [15]}, displays={1: "x", 3: "-"}, fmts=["hex"])
+    fam[-1]["variants"][1]["alt_split"] = 2
+    fam[-1]["variants"][1]["attrs_reversed"] = True
+    fam[-1]["variants"][3]["attrs_reversed"] = True
     return fam
 
 
@@ -118,6 +137,10 @@ def random_family(seed, n):
             if free and rnd.random() < 0.25:
                 na = rnd.randrange(1, min(4, len(free)) + 1)
                 v["alts"] = [free.pop() for _ in range(na)]
+                if rnd.random() < 0.5:
+                    v["alt_split"] = rnd.randrange(0, 4)
+            if rnd.random() < 0.3:
+                v["attrs_reversed"] = True
             vs.append(v)
         fam.append({"name": "R%02d" % k, "bits": bits, "variants": vs})
     return fam
